@@ -117,6 +117,10 @@ def verify_function(world, cname, prop, timeout_ms=QUICK_TIMEOUT_MS, source_over
         if sig != list(c.params):
             raise EngineError(f"signature {sig} does not match contract parameters {list(c.params)}")
         st.env = dict(env)
+        if fn.args.kwarg:
+            from .world import VDict
+            st.env[fn.args.kwarg.arg] = VDict([])      # verified for calls without extra keyword arguments
+            ex.notes.append("**kwargs assumed empty")
         outs = ex.exec_block(fn.body, st)
         outs.extend(ex.drain_pending())
         res.paths = len(outs)
